@@ -15,6 +15,9 @@ import (
 
 const bigPrec = 2400
 
+// c04LongTail follows a literal that is the first token of a longer input.
+const c04LongTail = `, "next": [1.5, 2e3], "padding": "xxxxxxxxxxxxxxxxxxxxxxxxxxxxxxxxxxxxxxxxxxxxxxxxxxxxxxxxxxxxxxxxxxxxxxxxxxxxxxxxxxxxxxxxx"}`
+
 // midpointDecimal: exact decimal text (d.ddd…e±x) of the midpoint between positive finite x
 // and the next larger float (for MaxFloat64: x + ulp/2, the overflow threshold).
 func midpointDecimal(x float64) string {
@@ -147,7 +150,7 @@ func TestC04(t *testing.T) {
 		}
 		// evalAll: the literal alone, negated, and followed by a terminator
 		evalAll := func(kind, lit string) error {
-			for _, s := range []string{lit, "-" + lit, lit + ",", " " + lit + "]", "\n\t                 " + lit + "}"} {
+			for _, s := range []string{lit, "-" + lit, lit + ",", " " + lit + "]", "\n\t                 " + lit + "}", lit + c04LongTail} {
 				if strings.HasPrefix(s, "--") {
 					continue
 				}
@@ -271,15 +274,18 @@ func TestC04(t *testing.T) {
 		// 2c. beyond strconv (ref/number.go): integer parts of more than 800 significant digits
 		// whose leading digits defeat the fast paths, and exponents of five and six digits
 		// compensated by as many leading or trailing zeros; exact rational rounding decides
-		if e.enumStage("beyond-strconv", "integer parts of N digits (N in 795..805, 900, 1000, 1599..1601, 4000, 12000) built on 6 heads (ties, 2^53+1, max float, least subnormal, plain) x 2 fills x 6 exponents x {plain, .5}; zero runs Z in {9999..10001, 99998..100001, 123455; thorough also 10^6} before or after 3 digit strings with exponent Z+k for 8 offsets k", true) {
+		if e.enumStage("beyond-strconv", "integer parts of N digits (N in 795..805, 900, 1000, 1599..1601, 4000, 12000) built on 6 heads (ties, 2^53+1, max float, least subnormal, plain) x 3 fills (zeros, fives, zeros then a final 1) x 6 exponents x {plain, .5, .0, .0001}; zero runs Z in {9999..10001, 99998..100001, 123455; thorough also 10^6} before or after 3 digit strings with exponent Z+k for 8 offsets k", true) {
 			var lits []string
 			heads := []string{"9007199254740993", "1", "17976931348623158", "4940656458412465", "22250738585072011", "123456789012345678901234567890"}
 			for _, N := range []int{795, 799, 800, 801, 802, 805, 900, 1000, 1599, 1600, 1601, 4000, 12000} {
 				for _, h := range heads {
-					for _, fill := range []string{"0", "5"} {
-						body := h + strings.Repeat(fill, N-len(h))
+					for _, fill := range []string{"0", "5", "0..1"} {
+						body := h + strings.Repeat(fill[:1], N-len(h))
+						if fill == "0..1" {
+							body = body[:len(body)-1] + "1" // zeros, then a last integer digit that decides a tie
+						}
 						for _, ex := range []string{"", fmt.Sprintf("e-%d", N-16), fmt.Sprintf("e-%d", N), fmt.Sprintf("e%d", 309-N), fmt.Sprintf("e-%d", N+323), fmt.Sprintf("E+%d", 308-N)} {
-							lits = append(lits, body+ex, body+".5"+ex)
+							lits = append(lits, body+ex, body+".5"+ex, body+".0"+ex, body+".0001"+ex)
 						}
 					}
 				}
